@@ -2,12 +2,16 @@
 (* impl -> spec for C01 and C02.
    "c01":    a generated program of the crate, its serialisation, the result of decoding and re-encoding it
              (redemption and commitment time).  The spec encoder must explain the crate's bytes and the
-             spec decoder must accept them (jet-free programs) and re-encode them identically.
+             spec decoder must accept them (jet-free programs and Core jets) and re-encode them identically.
    "decode": an arbitrary / mutated byte string offered to every decoder of the crate, with outcome class,
              re-encoding equality, peak allocation and time.  Clauses of C02, and the spec decoder's verdict
              (jet-free inputs): what the crate accepts the spec accepts. *)
 EXTENDS Codec, Json, IOUtils, TLC
 Rec == ndJsonDeserialize(IOEnv.TRACE)
+\* the Core family's jet table (overrides Codec!JetRows): the spec decoder gives a verdict for Core programs with jets
+\* (read once into a TLC register: a definition over IOEnv would be re-evaluated, i.e. the file re-read, at every use)
+ASSUME TLCSet(7, SelectSeq(ndJsonDeserialize(IOEnv.JETS), LAMBDA r : "side" \notin DOMAIN r /\ r.family = "core"))
+CoreJets == TLCGet(7)
 VARIABLE l
 AllocC0 == 50331648
 AllocK == 65536
@@ -32,8 +36,8 @@ ClausesC01(e) ==
    WellTyped(d, t, TRUE),
    \* 4: the spec encoder explains the crate's bytes
    EncodeRedeemBits(d, t, w) = e.rt.pb /\ EncodeWitnessBits(d, t, w) = e.rt.wb,
-   \* 5: the spec decoder accepts them and re-encodes them identically (jet-free programs)
-   e.has_jets \/ LET r == DecodeRedeem(e.rt.pb, e.rt.wb) IN
+   \* 5: the spec decoder accepts them and re-encodes them identically (jet-free programs and Core jets)
+   (e.has_jets /\ e.family # "core") \/ LET r == DecodeRedeem(e.rt.pb, e.rt.wb) IN
                  r.ok /\ EncodeRedeemBits(r.dag, r.ty, r.wit) = e.rt.pb /\ EncodeWitnessBits(r.dag, r.ty, r.wit) = e.rt.wb
   >>
 DecOk(name, r, n) ==
